@@ -9,7 +9,7 @@
    that premise is the C07/C08 side of the property and is checked on the real EVM by
    the C05 harness (sum of balances before/after every transaction and block). *)
 From AQ Require Import Lib.Bytes Tx.Transition Tx.Supply Tx.TxProofs Tx.SupplyProofs Generated.GenParamsTx.
-From AQ Require Evm.Interp Evm.InterpProofs3 Tx.InterpSupply.
+From AQ Require Evm.Interp Evm.InterpProofs Evm.InterpProofs3 Tx.InterpSupply Tx.Compose.
 Import ListNotations.
 Local Open Scope Z_scope.
 
@@ -102,6 +102,30 @@ Theorem C05_call_supply_exact_partial : forall fuel e w caller addr input gas va
   InterpSupply.wnf (Interp.o_world o) /\ InterpSupply.wsupply (Interp.o_world o) = InterpSupply.wsupply w.
 Proof. exact InterpSupply.call_top_supply_exact. Qed.
 Print Assumptions C05_call_supply_exact_partial.
+
+(* The composition: C05_tx_no_inflation / C05_block_supply with `run` instantiated by the C07 interpreter
+   (Compose.interp_runner) — no interpreter premise is left except a well-formed environment and the CREATE
+   exclusion of C05_exec_no_inflation_partial, here as a condition on the code store: no code contains byte 0xf0.
+   `_partial` for that exclusion and because creation transactions run a failing stub (Tx/Compose.v). *)
+Theorem C05_tx_no_inflation_evm_partial : forall fuel e code_of stor_of dg sg,
+  InterpProofs.wf_env e ->
+  forall cfg num coinbase idx s pool cum m r,
+  (forall d, InterpSupply.cf (code_of d)) ->
+  (m_gas m < two64)%N -> nonneg s ->
+  apply_transaction cfg num coinbase (Compose.interp_runner fuel e code_of stor_of dg sg) idx s pool cum m = TxOk r ->
+  supply (x_state r) <= supply s /\ nonneg (x_state r).
+Proof. exact Compose.tx_no_inflation_evm. Qed.
+Print Assumptions C05_tx_no_inflation_evm_partial.
+
+Theorem C05_block_supply_evm_partial : forall fuel e code_of stor_of dg sg,
+  InterpProofs.wf_env e ->
+  forall cfg dealloc s h txs uncles s' rs used,
+  (forall d, InterpSupply.cf (code_of d)) ->
+  Forall (fun m => (m_gas m < two64)%N) txs -> nonneg s ->
+  process cfg dealloc (Compose.interp_runner fuel e code_of stor_of dg sg) s h txs uncles = BlockOk s' rs used ->
+  supply s' <= supply s + issuance (h_number h) uncles.
+Proof. exact Compose.block_supply_evm. Qed.
+Print Assumptions C05_block_supply_evm_partial.
 
 (* non-vacuity: a contract holding 10 that pays 3 to its caller and then self-destructs to itself, called with
    value 5 under mainnet rules at height 40000: the premises hold, and the sum goes from 1015 to 1003 (12 burnt) *)
